@@ -74,10 +74,12 @@ package hcl
 //@ trusted
 //@ assigns contentCalls
 //@ ensures ret0 != nil && (ret1 == nil || fresh(ret1)) && contentCalls == old(contentCalls) + 1
+//@ ensures blocksNonNil: forall j int :: { ret0.Blocks[j] } 0 <= j && j < len(ret0.Blocks) ==> ret0.Blocks[j] != nil
 // verif:func (Body).PartialContent
 //@ trusted
 //@ assigns partialCalls
 //@ ensures ret0 != nil && (ret2 == nil || fresh(ret2)) && partialCalls == old(partialCalls) + 1
+//@ ensures blocksNonNil: forall j int :: { ret0.Blocks[j] } 0 <= j && j < len(ret0.Blocks) ==> ret0.Blocks[j] != nil
 // verif:func (Body).JustAttributes
 //@ trusted
 //@ assigns nothing
